@@ -407,7 +407,7 @@ class Interp:
             return self._wrap_static(self.repo.resolve_attr(v.name, name))
         if isinstance(v, ClassInfo):
             if v.is_enum and name in v.class_attrs:
-                return EnumVal(v, name)
+                return EnumVal(v, name, _enum_value(v, name))
             f = v.lookup(name)
             if f is not None:
                 return f
@@ -1014,6 +1014,30 @@ class Interp:
         if isinstance(v, ListCell) and isinstance(v.val, list):
             return list(v.val)
         raise Unsupported("starred symbolic sequence")
+
+
+def _enum_value(cls, name, depth=0):
+    """value of a Flag/Enum member given by a constant expression (1 << k, A | B); None for auto()"""
+    node = cls.class_attrs.get(name)
+
+    def ev(n):
+        if isinstance(n, ast.Constant):
+            return n.value
+        if isinstance(n, ast.Name) and n.id in cls.class_attrs and depth < 5:
+            return _enum_value(cls, n.id, depth + 1)
+        if isinstance(n, ast.BinOp):
+            a, b = ev(n.left), ev(n.right)
+            if a is None or b is None:
+                return None
+            if isinstance(n.op, ast.LShift):
+                return a << b
+            if isinstance(n.op, ast.BitOr):
+                return a | b
+            if isinstance(n.op, ast.BitAnd):
+                return a & b
+        return None
+
+    return ev(node) if node is not None else None
 
 
 def _is_boolish(v):
